@@ -8,5 +8,5 @@ d=/tmp/one.$$; rm -rf $d; mkdir -p $d/verif/evidence
 rsync -a --exclude .git /repo/ $d/repo/
 cp /verif/known_findings.json $d/verif/; ln -s /verif/checker $d/verif/checker
 (cd $d/repo && patch -p1 -s -f < "$src/patch.diff") || { echo PATCH-FAILS; rm -rf $d; exit 1; }
-GTVERIF_VERBOSE=1 GTVERIF_REPO=$d/repo GTVERIF_VERIF=$d/verif /verif/bin/gtverif check -prop $prop -tier quick 2>&1 | grep -v '^NOTE\| ok: ' | grep "$pat" | cut -c1-700
+GTVERIF_VERBOSE=1 GTVERIF_REPO=$d/repo GTVERIF_VERIF=$d/verif /verif/bin/gtverif check -prop $prop -tier quick 2>&1 | grep -v "^NOTE\|${ONE_SHOW_OK:- ok: }" | grep "$pat" | cut -c1-700
 rm -rf $d
